@@ -23,7 +23,7 @@ Section Load.
     unfold ld, load_file. split.
     - destruct content as [b|]; [|discriminate]. intros H. apply load_some_iff in H.
       unfold decode_stages in H. destruct (gunzip b) as [| | |p] eqn:G; try discriminate.
-      destruct (validate p) as [|a'] eqn:V; try discriminate. injection H as ->. eauto.
+      destruct (validate p) as [| |a'] eqn:V; try discriminate. injection H as ->. eauto.
     - intros (b & p & -> & G & V). unfold decode_stages. rewrite G, V. reflexivity.
   Qed.
 
@@ -33,7 +33,7 @@ Section Load.
   Proof.
     intros H. unfold ld, load_file, decode_stages.
     destruct (gunzip b) as [| | |p] eqn:G; try reflexivity.
-    destruct (validate p) as [|a] eqn:V; [reflexivity|]. exfalso. eapply H; eauto.
+    destruct (validate p) as [| |a] eqn:V; [reflexivity|reflexivity|]. exfalso. eapply H; eauto.
   Qed.
 
   Lemma unreadable_same_session_sec default b :
@@ -111,3 +111,27 @@ Proof.
   intros H. split; [apply unreadable_like_missing_sec, H|].
   destruct (unreadable_same_session_sec A gunzip validate default b H) as [X Y]. rewrite X. exact Y.
 Qed.
+
+(* whether the state file is consumed does not depend on whether the state can be applied *)
+Lemma core_restore_consumes_lemma (A : Type) (k : fkind) (unlink_ok apply_raises : bool) (o : decode_outcome A) :
+  snd (core_restore k unlink_ok apply_raises o) = snd (core_load k unlink_ok o) /\
+  (k = FRegular -> unlink_ok = true -> snd (core_restore k unlink_ok apply_raises o) = false) /\
+  (k = FMissing -> snd (core_restore k unlink_ok apply_raises o) = false).
+Proof.
+  unfold core_restore, core_load, core_load_with.
+  destruct o; cbn; try (split; [reflexivity|split; [intros -> ->; reflexivity|intros ->; reflexivity]]).
+  destruct apply_raises; cbn; (split; [reflexivity|split; [intros -> ->; reflexivity|intros ->; reflexivity]]).
+Qed.
+
+Lemma late_unlink_refuted_lemma :
+  snd (core_restore_late_unlink FRegular true true (DOk tt)) = true /\
+  snd (core_restore FRegular true true (DOk tt)) = false.
+Proof. vm_compute. auto. Qed.
+
+Lemma load_no_typeerror_refuted_lemma :
+  exists o : decode_outcome unit,
+    outcome_fits FRegular o = true /\
+    is_raise (load_no_typeerror o) = true /\
+    snd (core_load_with load_no_typeerror FRegular true o) = true /\
+    load o = Ok None.
+Proof. exists DTypeError. vm_compute. auto. Qed.
